@@ -679,6 +679,11 @@ def r7_local_clean(ctx):
         if cl is None:
             continue
         pool = list(ci.methods.values()) + list(ci.module.functions.values())
+        # ... or a function of another module of the package that clean calls by its imported name
+        called = {x.id for x in ast.walk(cl.node) if isinstance(x, ast.Name)}
+        for m_ in corpus.modules.values():
+            if m_ is not ci.module:
+                pool += [f_ for n_, f_ in m_.functions.items() if n_ in called and n_ not in ci.module.functions]
         gens = [m for m in pool if any(isinstance(y, ast.Yield) for y in walk_local(m.node)) and any((dotted(c.func) or '') == 'os.scandir' for c in calls_in(m.node)) and any((isinstance(a, ast.Attribute) and a.attr == m.name) or (isinstance(a, ast.Name) and a.id == m.name) for a in ast.walk(cl.node))]
         if not gens:
             if any((dotted(c.func) or '').endswith('rmdir') for c in calls_in(cl.node)):
